@@ -985,7 +985,7 @@ func (m *Machine) convert(x Value, from, to types.Type) Value {
 			if v.IsConst() {
 				return ConcStr(string(rune(signExt(v.Val, v.W))), s)
 			}
-			m.unsupported("string(symbolic rune)")
+			return m.encodeRuneSym(v, isSigned(from))
 		}
 		if isFloat(to) {
 			if v.IsConst() {
@@ -1047,4 +1047,34 @@ func (m *Machine) convert(x Value, from, to types.Type) Value {
 	}
 	m.unsupported(fmt.Sprintf("convert %s -> %s (%T)", from, to, x))
 	return nil
+}
+
+// encodeRuneSym is string(r) for a symbolic integer r, forking on the UTF-8 length classes.
+func (m *Machine) encodeRuneSym(v *Term, signed bool) Str {
+	s := m.S
+	var r *Term
+	if signed {
+		r = s.SExt(v, 64)
+	} else {
+		r = s.ZExt(v, 64)
+	}
+	c := func(x uint64) *Term { return s.Const(64, x) }
+	b := func(t *Term) *Term { return s.Extract(t, 7, 0) }
+	cont := func(sh uint64) *Term {
+		return b(s.Or(c(0x80), s.And(s.LShr(r, c(sh)), c(0x3F))))
+	}
+	invalid := s.BOr(s.Not(s.ULe(r, c(0x10FFFF))), s.BAnd(s.ULe(c(0xD800), r), s.ULe(r, c(0xDFFF))))
+	if m.Branch(invalid) {
+		return ConcStr("\uFFFD", s)
+	}
+	if m.Branch(s.ULt(r, c(0x80))) {
+		return Str{[]*Term{b(r)}}
+	}
+	if m.Branch(s.ULt(r, c(0x800))) {
+		return Str{[]*Term{b(s.Or(c(0xC0), s.LShr(r, c(6)))), cont(0)}}
+	}
+	if m.Branch(s.ULt(r, c(0x10000))) {
+		return Str{[]*Term{b(s.Or(c(0xE0), s.LShr(r, c(12)))), cont(6), cont(0)}}
+	}
+	return Str{[]*Term{b(s.Or(c(0xF0), s.LShr(r, c(18)))), cont(12), cont(6), cont(0)}}
 }
